@@ -10,7 +10,7 @@
 use std::borrow::Borrow;
 use std::cell::{Cell, RefCell};
 use std::io::Write;
-use std::mem::{align_of, size_of};
+use std::mem::{align_of, size_of, ManuallyDrop};
 use std::panic::{catch_unwind, AssertUnwindSafe};
 
 use layout_probes as lp;
@@ -151,6 +151,23 @@ unsafe impl<T: Payload> Trace for Holder<T> {
 
 impl<T: Payload> Finalize for Holder<T> {}
 
+/// Like `Holder`, but every handle it owns is a TRACED `ManuallyDrop<Cc<_>>`: the collector sees the
+/// edges (so a cycle closed through them is garbage) while no drop glue ever releases them. When
+/// `deallocate_list` frees such boxes their strong counters are still > 0.
+struct HolderMd<T: Payload> {
+    link: RefCell<Option<ManuallyDrop<Cc<HolderMd<T>>>>>,
+    payload: ManuallyDrop<Cc<T>>,
+}
+
+unsafe impl<T: Payload> Trace for HolderMd<T> {
+    fn trace(&self, ctx: &mut Context<'_>) {
+        self.link.trace(ctx);
+        self.payload.trace(ctx);
+    }
+}
+
+impl<T: Payload> Finalize for HolderMd<T> {}
+
 // ---------------------------------------------------------------------------------------------
 // Type erasure. The probe logic below is written ONCE against `dyn Obj`; only the thin methods of
 // `Slots<T>` are monomorphised per payload type (keeps the release build of ~250 types short).
@@ -195,6 +212,10 @@ trait Obj {
     /// LINKED payloads: store a clone of handle `i` inside the object. Others: create a
     /// `Holder` owning a clone of `i` and pointing to itself.
     fn make_cycle(&mut self, i: usize) -> Option<HolderInfo>;
+    /// A garbage structure closed through traced `ManuallyDrop` handles only: `two == false`: one
+    /// `HolderMd` pointing to itself and to (a clone of) handle `i`; `two == true`: two `HolderMd`s
+    /// pointing to each other, both to handle `i`. Returns the layout facts of the first holder.
+    fn make_cycle_md(&mut self, i: usize, two: bool) -> HolderInfo;
     fn drop_holder(&mut self);
     /// `Cc::new_cyclic`; the closure keeps a clone of the Weak (weak slot 0) and checks that it
     /// cannot be upgraded yet. `Err(())` when the closure panicked (caught here).
@@ -206,6 +227,7 @@ struct Slots<T: Payload> {
     h: Vec<Option<Cc<T>>>,
     w: Vec<Option<Weak<T>>>,
     holder: Option<Cc<Holder<T>>>,
+    holders_md: [Option<Cc<HolderMd<T>>>; 2],
     closure_upgrade_failed: Cell<bool>,
 }
 
@@ -214,6 +236,7 @@ fn mk<T: Payload>() -> Box<dyn Obj> {
         h: Vec::with_capacity(16),
         w: Vec::with_capacity(8),
         holder: None,
+        holders_md: [None, None],
         closure_upgrade_failed: Cell::new(true),
     })
 }
@@ -364,9 +387,36 @@ impl<T: Payload> Obj for Slots<T> {
         }
     }
 
+    fn make_cycle_md(&mut self, i: usize, two: bool) -> HolderInfo {
+        let h1 = Cc::new(HolderMd { link: RefCell::new(None), payload: ManuallyDrop::new(self.get(i).clone()) });
+        if two {
+            let h2 = Cc::new(HolderMd { link: RefCell::new(None), payload: ManuallyDrop::new(self.get(i).clone()) });
+            *h1.link.borrow_mut() = Some(ManuallyDrop::new(h2.clone()));
+            *h2.link.borrow_mut() = Some(ManuallyDrop::new(h1.clone()));
+            self.holders_md[1] = Some(h2);
+        } else {
+            *h1.link.borrow_mut() = Some(ManuallyDrop::new(h1.clone()));
+        }
+        let r: &HolderMd<T> = &h1;
+        let info = HolderInfo {
+            tsize: size_of::<HolderMd<T>>(),
+            talign: align_of::<HolderMd<T>>(),
+            decl: verif::ccbox_layout::<HolderMd<T>>(),
+            layout: verif::box_layout(&h1),
+            base: verif::box_addr(&h1) as usize,
+            elem: r as *const HolderMd<T> as usize,
+        };
+        self.holders_md[0] = Some(h1);
+        info
+    }
+
     fn drop_holder(&mut self) {
         let h = self.holder.take();
         drop(h);
+        let h1 = self.holders_md[0].take();
+        drop(h1);
+        let h2 = self.holders_md[1].take();
+        drop(h2);
     }
 
     fn new_cyclic(&mut self, pat: u8, panics: bool) -> Result<usize, ()> {
@@ -466,6 +516,8 @@ enum Release {
     Drop,
     Unwrap,
     Cycle,
+    /// garbage closed through traced `ManuallyDrop<Cc<_>>` handles: counters > 0 when freed
+    CycleMd,
 }
 
 #[derive(Copy, Clone, PartialEq, Eq, Debug)]
@@ -506,6 +558,41 @@ struct Meas {
     decl: (usize, usize),
     side_allocs: usize,
     holder: Option<(HolderInfo, lp::Block, Option<lp::Block>)>,
+}
+
+fn crate_allocated_bytes() -> i128 {
+    rust_cc::state::allocated_bytes().map_or(-1, |n| n as i128)
+}
+
+/// Bytes of the BOXES (everything the log recorded except the weak side records) that the allocator
+/// log says are live right now.
+fn live_box_bytes(sides: &[usize]) -> i128 {
+    let evs = lp::log_since(0);
+    let mut live: Vec<lp::Block> = Vec::new();
+    for e in &evs {
+        match e.kind {
+            Kind::Alloc => live.push(e.blk),
+            Kind::Dealloc => {
+                if let Some(i) = live.iter().position(|b| b.ptr == e.blk.ptr) {
+                    live.swap_remove(i);
+                }
+            },
+        }
+    }
+    live.iter().filter(|b| !sides.contains(&b.ptr)).map(|b| b.size as i128).sum()
+}
+
+/// C03/C11 accounting: the change of `allocated_bytes()` since the beginning of the route equals the
+/// total size of the boxes the allocator log still holds live; with `must_be_zero` both must be 0.
+fn check_accounting(when: &str, ab0: i128, sides: &[usize], must_be_zero: bool, bad: &mut Vec<String>) {
+    let delta = crate_allocated_bytes() - ab0;
+    let live = live_box_bytes(sides);
+    if delta != live {
+        bad.push(format!("allocated_bytes_delta_{delta}_but_allocator_log_has_{live}_box_bytes_live[{when}]"));
+    }
+    if must_be_zero && delta != 0 {
+        bad.push(format!("allocated_bytes_delta_{delta}_after_release[{when}]"));
+    }
 }
 
 /// Header alignment measured in `main` (align_of::<CcBox<()>>()).
@@ -554,6 +641,7 @@ fn one_route(o: &mut dyn Obj, release: Release, weak: WeakMode, pat: u8, bad: &m
     lp::log_reset();
     lp::clear_alloc_errors();
     let drops0 = drops();
+    let ab0 = crate_allocated_bytes();
     let decl = o.decl();
     let (tsize, talign) = (o.tsize(), o.talign());
 
@@ -703,6 +791,8 @@ fn one_route(o: &mut dyn Obj, release: Release, weak: WeakMode, pat: u8, bad: &m
     }
 
     // ---- release
+    let sides: Vec<usize> = side.iter().map(|s| s.ptr).collect();
+    check_accounting("alive", ab0, &sides, false, bad);
     let mark = lp::log_len();
     let expected_drops = 2; // `other` + the object itself
     match release {
@@ -739,10 +829,16 @@ fn one_route(o: &mut dyn Obj, release: Release, weak: WeakMode, pat: u8, bad: &m
                 },
             }
         },
-        Release::Cycle => {
+        Release::Cycle | Release::CycleMd => {
             let hm = lp::log_len();
-            let info = rec(|| o.make_cycle(cc));
+            let info = if release == Release::CycleMd {
+                // two holders without a weak pointer, a self-loop with one
+                Some(rec(|| o.make_cycle_md(cc, weak == WeakMode::None)))
+            } else {
+                rec(|| o.make_cycle(cc))
+            };
             let hal = allocs(&lp::log_since(hm));
+            check_accounting("cycle_built", ab0, &sides, false, bad);
             rec(|| o.drop_h(c2));
             rec(|| o.drop_h(cc));
             rec(|| o.drop_holder());
@@ -750,8 +846,10 @@ fn one_route(o: &mut dyn Obj, release: Release, weak: WeakMode, pat: u8, bad: &m
             if lp::is_live(base).is_none() || deallocs(&lp::log_since(mark)).iter().any(|b| b.ptr == base) {
                 bad.push("cycle_member_freed_before_collection".into());
             }
+            check_accounting("garbage_before_collection", ab0, &sides, false, bad);
             let cm = lp::log_len();
             rec(collect_cycles);
+            check_accounting("after_collection", ab0, &sides, true, bad);
             if let Some(info) = info {
                 let hb = hal.iter().find(|b| b.ptr == info.base).copied().unwrap_or(lp::Block { ptr: 0, size: 0, align: 0 });
                 let hf = deallocs(&lp::log_since(cm)).into_iter().find(|b| b.ptr == info.base);
@@ -806,6 +904,7 @@ fn one_route(o: &mut dyn Obj, release: Release, weak: WeakMode, pat: u8, bad: &m
     }
 
     // ---- global accounting for this object
+    check_accounting("end", ab0, &[], true, bad);
     let all = lp::log_since(0);
     let left = replay(&all, bad);
     if left != 0 {
@@ -828,6 +927,7 @@ fn new_cyclic_route(o: &mut dyn Obj, panics: bool, pat: u8, bad: &mut Vec<String
     lp::log_reset();
     lp::clear_alloc_errors();
     let drops0 = drops();
+    let ab0 = crate_allocated_bytes();
     let decl = o.decl();
     let mut m = Meas { box_size: 0, box_align: 0, off: None, free_size: 0, free_align: 0, decl, side_allocs: 0, holder: None };
     // `rec` is OUTSIDE the catch_unwind inside `new_cyclic`: the unwinder's exception object and the
@@ -930,6 +1030,7 @@ fn new_cyclic_route(o: &mut dyn Obj, panics: bool, pat: u8, bad: &mut Vec<String
             }
         },
     }
+    check_accounting("end", ab0, &[], true, bad);
     let all = lp::log_since(0);
     let left = replay(&all, bad);
     if left != 0 {
@@ -970,7 +1071,8 @@ fn emit(ctx: &mut Ctx, o: &dyn Obj, route: &str, m: &Meas, bad: &[String]) {
     );
     // the Holder node created for the cycle route is one more payload layout: report it too
     if let Some((info, ab, fb)) = &m.holder {
-        if route == "cycle" {
+        if route == "cycle" || route == "cycle_md" || route == "cycle_md+weak_first" {
+            let prefix = if route == "cycle" { "holder" } else { "holdermd" };
             let mut hbad: Vec<String> = Vec::new();
             if (ab.size, ab.align) != info.decl || info.layout != info.decl {
                 hbad.push("alloc_layout_differs_from_size_of".into());
@@ -983,7 +1085,7 @@ fn emit(ctx: &mut Ctx, o: &dyn Obj, route: &str, m: &Meas, bad: &[String]) {
             }
             let f = fb.unwrap_or(lp::Block { ptr: 0, size: 0, align: 0 });
             emit_line(
-                ctx, &format!("holder_{}", o.name()), "cycle", info.tsize, info.talign, ab.size, ab.align,
+                ctx, &format!("{}_{}", prefix, o.name()), route, info.tsize, info.talign, ab.size, ab.align,
                 Some(info.elem.wrapping_sub(info.base)), (f.size, f.align), info.decl, 0, &hbad,
             );
         }
@@ -996,7 +1098,7 @@ fn probe_dyn(ctx: &mut Ctx, make: fn() -> Box<dyn Obj>) {
     // misaligned pointer) aborts the process, the checker can still name the payload type
     writeln!(ctx.out, "type T={}", make().name()).unwrap();
     ctx.out.flush().unwrap();
-    for release in [Release::Drop, Release::Unwrap, Release::Cycle] {
+    for release in [Release::Drop, Release::Unwrap, Release::Cycle, Release::CycleMd] {
         for weak in [WeakMode::None, WeakMode::WeakFirst, WeakMode::WeakLast] {
             let pat = ctx.next_pattern();
             let mut bad = Vec::new();
@@ -1008,6 +1110,7 @@ fn probe_dyn(ctx: &mut Ctx, make: fn() -> Box<dyn Obj>) {
                     Release::Drop => "drop",
                     Release::Unwrap => "unwrap",
                     Release::Cycle => "cycle",
+                    Release::CycleMd => "cycle_md",
                 },
                 match weak {
                     WeakMode::None => "",
